@@ -254,9 +254,10 @@ func (i *Instance) Restart(newCasketfile Input) (*Instance, error) {
 		return i, err
 	}
 	for _, shutdownFunc := range i.OnShutdown {
-		err = shutdownFunc()
-		if err != nil {
-			return i, err
+		// the new instance is already serving and the old one is stopped:
+		// an error here must not turn the reload into a failed one
+		if cbErr := shutdownFunc(); cbErr != nil {
+			log.Printf("[ERROR] Shutdown callback of old instance returned error: %v", cbErr)
 		}
 	}
 
